@@ -2357,6 +2357,10 @@ func (h *c15) replay(t *testing.T, path string) {
 			h.destinations()
 			continue
 		}
+		if p[0] == "b32" {
+			h.replayB32(t, p)
+			continue
+		}
 		if len(p) >= 2 && p[0] == "exchange" {
 			// exchange|<link>|<request>|<response>: the pair over both links, with a fresh key
 			priv, err := encryption.GeneratePrivkey()
@@ -2481,6 +2485,7 @@ func TestVerifC15(t *testing.T) {
 	if err == nil {
 		dom, _ := dns.ParseName(domain)
 		h.queryNames(resp, dom)
+		h.base32s(resp, dom)
 		resp.Close()
 	} else {
 		// a clause of the property that is not exercised must not look like a pass
